@@ -74,7 +74,7 @@ static const char* k_kind[] = { "random", "sin", "empty" };
 static const char* k_type[] = { "u8", "u16", "i8", "i16", "f32", "u10", "u12", "u14" };
 
 static struct { unsigned long cases, sets, rejected_sets, starts, frames, bytes, binned_cases, clamped, maxshape, reconfigs,
-                runs, triggers, trigger_runs, pending_at_stop, restarts_checked, restarts_without_set, live_sets, timebound_checked, failed_frame_calls, ids_ahead_of_pacing; } C;
+                runs, triggers, trigger_runs, pending_at_stop, restarts_checked, restarts_without_set, live_sets, live_resizes, timebound_checked, failed_frame_calls, ids_ahead_of_pacing; } C;
 static vset g_sigs;
 
 // ---- C17 ------------------------------------------------------------------------------------------------
@@ -198,6 +198,30 @@ static void run_shape_case(uint64_t seed, unsigned long icase, uint64_t maxpx)
                 free(im);
                 ++total_frames; ++C.frames; C.bytes += nbytes;
                 vbuf_printf(&g_log, "f ");
+            }
+            if (r == nruns - 1 && req.input_triggers.frame_start.enable && !g_case_violated && vrng_chance(&g, 1, 2)) {
+                // "set" with another region while the camera is live and its streamer waits for the next trigger:
+                // the next triggered frame has the new shape and fills exactly the new number of bytes
+                struct CameraProperties q = req;
+                q.shape.x = (uint32_t)vrng_range(&g, 1, cap < 200 ? cap : 200); q.shape.y = (uint32_t)vrng_range(&g, 1, cap < 120 ? cap : 120);
+                vbuf_printf(&g_log, "live-set(%ux%u) ", q.shape.x, q.shape.y);
+                if (camera_set(cam, &q) != Device_Ok) violation("set-failed", "camera_set of another region failed while running");
+                else {
+                    struct ImageShape sh2; memset(&sh2, 0xee, sizeof sh2);
+                    size_t nb2 = (size_t)q.shape.x * q.shape.y * k_bpp[req.pixel_type];
+                    if (camera_get_image_shape(cam, &sh2) != Device_Ok || sh2.dims.width != q.shape.x || sh2.dims.height != q.shape.y)
+                        violation("shape-not-clamped-request", "after a live set of %ux%u get_shape says %ux%u", q.shape.x, q.shape.y, sh2.dims.width, sh2.dims.height);
+                    else {
+                        uint8_t* im = (uint8_t*)malloc(nb2); memset(im, 0x5a, nb2);
+                        size_t nb = nb2; struct ImageInfo info; memset(&info, 0, sizeof info);
+                        camera_execute_trigger(cam); ++C.triggers;
+                        if (camera_get_frame(cam, im, &nb, &info) != Device_Ok) violation("get-frame-failed", "camera_get_frame failed after a live set of another region");
+                        else if (info.shape.dims.width != q.shape.x || info.shape.dims.height != q.shape.y)
+                            violation("frame-shape-mismatch", "frame after a live set of %ux%u is reported as %ux%u", q.shape.x, q.shape.y, info.shape.dims.width, info.shape.dims.height);
+                        free(im);
+                        ++C.live_resizes; ++C.frames;
+                    }
+                }
             }
             vbuf_printf(&g_log, "stop ");
             if (camera_stop(cam) != Device_Ok) violation("stop-failed", "camera_stop failed");
@@ -457,9 +481,9 @@ int main(int argc, char** argv)
     }
     printf("S {\"mode\":\"%s\",\"cases\":%lu,\"violations\":%lu,\"sets\":%lu,\"rejected_sets\":%lu,\"reconfigurations\":%lu,\"starts\":%lu,"
            "\"frames\":%lu,\"frame_bytes\":%lu,\"cases_with_binning\":%lu,\"clamped_requests\":%lu,\"max_shape_requests\":%lu,\"runs\":%lu,"
-           "\"triggers\":%lu,\"trigger_runs\":%lu,\"stops_with_pending_get_frame\":%lu,\"restart_checks\":%lu,\"restarts_without_set\":%lu,\"live_sets\":%lu,\"timebound_checks\":%lu,\"failed_frame_calls\":%lu,\"ids_ahead_of_pacing_info\":%lu,\"distinct\":%zu}\n",
+           "\"triggers\":%lu,\"trigger_runs\":%lu,\"stops_with_pending_get_frame\":%lu,\"restart_checks\":%lu,\"restarts_without_set\":%lu,\"live_sets\":%lu,\"live_resizes\":%lu,\"timebound_checks\":%lu,\"failed_frame_calls\":%lu,\"ids_ahead_of_pacing_info\":%lu,\"distinct\":%zu}\n",
            mode, C.cases, g_nviol, C.sets, C.rejected_sets, C.reconfigs, C.starts, C.frames, C.bytes, C.binned_cases, C.clamped, C.maxshape,
-           C.runs, C.triggers, C.trigger_runs, C.pending_at_stop, C.restarts_checked, C.restarts_without_set, C.live_sets, C.timebound_checked, C.failed_frame_calls, C.ids_ahead_of_pacing, g_sigs.n);
+           C.runs, C.triggers, C.trigger_runs, C.pending_at_stop, C.restarts_checked, C.restarts_without_set, C.live_sets, C.live_resizes, C.timebound_checked, C.failed_frame_calls, C.ids_ahead_of_pacing, g_sigs.n);
     const char* hp = getenv("VERIF_HASH_OUT");
     if (hp) vset_dump(&g_sigs, hp);
     fflush(stdout);
